@@ -513,12 +513,13 @@ theorem stabN (cfg : Cfg) (hm : cfg.mini = false) (hi : IndentWS cfg) :
           have hg : ∀ v, gK cfg c m false v = MX cfg (c.push m) m (indentAt cfg c) v := by
             intro v
             simp only [gK, MX, Bool.false_eq_true, if_false, endInd_normal m _ _ hp]
-          have := stabL cfg hm hi kk hkk (c.push m) m (indentAt cfg c) (push_inPre_zero c m hc hnpre) hp hI []
+          have := stabL cfg hm hi kk hkk (c.push m) m (indentAt cfg c) (push_inPre_zero c m hc hnpre) hp (Or.inr hI) []
           simp only [pushData_nil] at this
           rw [hg, hg, hg]
           exact this
 theorem stabL (cfg : Cfg) (hm : cfg.mini = false) (hi : IndentWS cfg) :
-    ∀ ks : List FNode, StrictL ks → ∀ (c : Ctx) (p e : Str), c.inPre = 0 → isPreserve p = false → IsIndent e →
+    ∀ ks : List FNode, StrictL ks → ∀ (c : Ctx) (p e : Str), c.inPre = 0 → isPreserve p = false →
+      (e = [] ∨ IsIndent e) →
       ∀ a : Str, MX cfg c p e (MX cfg c p e (pushData a (MX cfg c p e ks))) = MX cfg c p e (pushData a (MX cfg c p e ks))
   | [], _, c, p, e, hc, hp, he, a => by
     have hd : ∀ x, MX cfg c p e (dataTok x) = dataTok (squeeze x ++ e) := by
@@ -526,7 +527,10 @@ theorem stabL (cfg : Cfg) (hm : cfg.mini = false) (hi : IndentWS cfg) :
       have := MX_dataTok cfg c p e hc hp x []
       rw [List.append_nil] at this
       rw [this, MX_nil, pushData_dataTok]
-    rw [MX_nil, pushData_dataTok, hd, hd, squeeze_indent_stable a e he]
+    rw [MX_nil, pushData_dataTok, hd, hd]
+    rcases he with rfl | he
+    · simp only [List.append_nil, squeeze_idem]
+    · rw [squeeze_indent_stable a e he]
   | .tok t :: ks, hs, c, p, e, hc, hp, he, a => by
     simp only [StrictL] at hs
     by_cases hd : isData t = true
@@ -661,14 +665,15 @@ theorem noWrapperStart_strictToks (dt : Option Str) (u : FNode) (hs : u.Strict) 
   · exact noWrapper_toks _ (strict_textLike _ hs) hnw t0 ht0
 
 /-- **One pass, text to text.**  Any class with a spaces/tabs indent unit; a token sequence that the plain parser
-    builds into the strict single-root document `u` (doctype `dt`).  The formatter's output is the rendering of
+    builds into the strict single-root document `u` (doctype `dt`) — `ps` is the parser's final state, **elements still
+    open at the end of the input included** (`ps.root` is the tree with them closed, what `getHTML` serialises).  The formatter's output is the rendering of
     `outToks cfg dt u`; the strict lexer reads it back as exactly those tokens; they do not start the wrapper; and the
     plain parser builds from them the document whose root is `u` with its children replaced by `gK` of them — again
     strict and free of the reserved name.  (So the next pass is this lemma again, with `gK … kids` for `kids`.) -/
-theorem pass_step (cfg : Cfg) (hi : IndentWS cfg) (dt : Option Str) (hdt : DtOK dt) (n : Str) (st : AStore) (sc : Bool)
+theorem pass_step_open (cfg : Cfg) (hi : IndentWS cfg) (dt : Option Str) (hdt : DtOK dt) (n : Str) (st : AStore) (sc : Bool)
     (kids : List FNode) (hs : (FNode.elem n st sc kids).Strict) (hnw : (FNode.elem n st sc kids).NoWrapper)
-    (toks : List Tok) (hnws : NoWrapperStart toks)
-    (hp : Plain.feed toks = .ok ⟨[], some (FNode.elem n st sc kids).toNode, dt, 0, 0⟩) :
+    (toks : List Tok) (hnws : NoWrapperStart toks) (ps : St)
+    (hp : Plain.feed toks = .ok ps) (hroot : ps.root = some (FNode.elem n st sc kids).toNode) (hd : ps.doctype = dt) :
     format cfg toks = .ok (renderToksY (styleOf cfg.kind) (outToks cfg dt (.elem n st sc kids)))
     ∧ lexStrict (renderToksY (styleOf cfg.kind) (outToks cfg dt (.elem n st sc kids)))
         = some (outToks cfg dt (.elem n st sc kids))
@@ -683,10 +688,10 @@ theorem pass_step (cfg : Cfg) (hi : IndentWS cfg) (dt : Option Str) (hdt : DtOK 
     simp only [FNode.NoWrapper] at h1
     simp only [FNode.Strict] at h2
     rw [← h2.1.2.2]; exact h1.1
-  have htext := format_text cfg toks hnws _ hp n st sc kids rfl (fun e => absurd e hn) hs
+  have htext := format_text cfg toks hnws ps hp n st sc kids hroot (fun e => absurd e hn) hs
   have hdoc : docToks cfg dt n st sc kids = outToks cfg dt (.elem n st sc kids) := by
     unfold docToks; simp [hn]
-  rw [hdoc] at htext
+  rw [hd, hdoc] at htext
   have hstrict2 := strict_gK cfg hi ⟨0, 0⟩ n st sc kids hs
   have hnw2 := nw_gK cfg ⟨0, 0⟩ n st sc kids hnw
   refine ⟨htext, doc_lex cfg hi dt _ hs hdt, ?_, ?_, hstrict2, hnw2⟩
@@ -707,6 +712,21 @@ theorem pass_step (cfg : Cfg) (hi : IndentWS cfg) (dt : Option Str) (hdt : DtOK 
   · have := doc_reparse cfg hi dt n st sc kids hs hdt
     rw [outRoot_eq_gK] at this
     exact this
+
+/-- `pass_step_open` for a token sequence that leaves nothing open -/
+theorem pass_step (cfg : Cfg) (hi : IndentWS cfg) (dt : Option Str) (hdt : DtOK dt) (n : Str) (st : AStore) (sc : Bool)
+    (kids : List FNode) (hs : (FNode.elem n st sc kids).Strict) (hnw : (FNode.elem n st sc kids).NoWrapper)
+    (toks : List Tok) (hnws : NoWrapperStart toks)
+    (hp : Plain.feed toks = .ok ⟨[], some (FNode.elem n st sc kids).toNode, dt, 0, 0⟩) :
+    format cfg toks = .ok (renderToksY (styleOf cfg.kind) (outToks cfg dt (.elem n st sc kids)))
+    ∧ lexStrict (renderToksY (styleOf cfg.kind) (outToks cfg dt (.elem n st sc kids)))
+        = some (outToks cfg dt (.elem n st sc kids))
+    ∧ NoWrapperStart ((outToks cfg dt (.elem n st sc kids)).map Tok.ofToken)
+    ∧ Plain.feed ((outToks cfg dt (.elem n st sc kids)).map Tok.ofToken)
+        = .ok ⟨[], some (FNode.elem n st sc (gK cfg ⟨0, 0⟩ n sc kids)).toNode, dt, 0, 0⟩
+    ∧ (FNode.elem n st sc (gK cfg ⟨0, 0⟩ n sc kids)).Strict
+    ∧ (FNode.elem n st sc (gK cfg ⟨0, 0⟩ n sc kids)).NoWrapper :=
+  pass_step_open cfg hi dt hdt n st sc kids hs hnw toks hnws _ hp rfl rfl
 
 /-- the output text depends on the root's children only through `gK` of them -/
 theorem outToks_congr (cfg : Cfg) (dt : Option Str) (n : Str) (st : AStore) (sc : Bool) (k1 k2 : List FNode)
@@ -732,5 +752,23 @@ theorem pretty_text_stable_core (cfg : Cfg) (hm : cfg.mini = false) (hi : Indent
   rw [f3]
   congr 2
   exact outToks_congr cfg dt n st sc _ _ (outRoot_stable cfg hm hi n st sc kids hs)
+
+/-- `pretty_text_stable_core` for ANY token sequence whose plain-parser tree is the strict single-root document (implicit
+    closes, elements left open at the end of the input) -/
+theorem pretty_text_stable_core_open (cfg : Cfg) (hm : cfg.mini = false) (hi : IndentWS cfg)
+    (n : Str) (st : AStore) (sc : Bool) (kids : List FNode)
+    (hs : (FNode.elem n st sc kids).Strict) (hnw : (FNode.elem n st sc kids).NoWrapper)
+    (toks : List Tok) (hnws : NoWrapperStart toks) (ps : St) (hp : Plain.feed toks = .ok ps)
+    (hroot : ps.root = some (FNode.elem n st sc kids).toNode) (hdt : DtOK ps.doctype) :
+    ∃ out1 toks2 out2 toks3, format cfg toks = .ok out1 ∧ lexStrict out1 = some toks2 ∧
+      format cfg (toks2.map Tok.ofToken) = .ok out2 ∧ lexStrict out2 = some toks3 ∧
+      format cfg (toks3.map Tok.ofToken) = .ok out2 := by
+  obtain ⟨f1, l1, w1, p1, s1, n1⟩ := pass_step_open cfg hi ps.doctype hdt n st sc kids hs hnw toks hnws ps hp hroot rfl
+  obtain ⟨f2, l2, w2, p2, s2, n2⟩ := pass_step cfg hi ps.doctype hdt n st sc _ s1 n1 _ w1 p1
+  obtain ⟨f3, _, _, _, _, _⟩ := pass_step cfg hi ps.doctype hdt n st sc _ s2 n2 _ w2 p2
+  refine ⟨_, _, _, _, f1, l1, f2, l2, ?_⟩
+  rw [f3]
+  congr 2
+  exact outToks_congr cfg ps.doctype n st sc _ _ (outRoot_stable cfg hm hi n st sc kids hs)
 
 end AHP.Fmt
